@@ -129,6 +129,16 @@ impl Prop for C17 {
                 vars.push((base.clone(), base, ty));
             }
         }
+        // an array target whose subscript is an Integer variable read earlier in the same statement
+        let mut dependent: Option<usize> = None;
+        if nv >= 2 && rng.chance(1, 4) {
+            vars[0] = ("V0%".to_string(), "V0%".to_string(), Ty::I);
+            let k = 1 + rng.usize(nv - 1);
+            let (suf, ty) = tys[rng.usize(4)];
+            let base = format!("W{}{}", k, suf);
+            vars[k] = (format!("{}(V0%)", base), base, ty);
+            dependent = Some(k);
+        }
         let comma = rng.chance(1, 3);
         let prompt = if rng.coin() { Some(*rng.pick(&["NAME", "a b", "é", ""])) } else { None };
         let mut stmt = String::from("INPUT ");
@@ -160,6 +170,8 @@ impl Prop for C17 {
                     s
                 } else if i == bad_at {
                     rng.pick(&BAD_NUM[..]).to_string()
+                } else if i == 0 && dependent.is_some() {
+                    rng.pick(&["0", "1", "3", "10", " 7 ", "2.9", "11", "-1", "&HA", "", "12"]).to_string()
                 } else {
                     rng.pick(&GOOD_NUM[..]).to_string()
                 };
@@ -168,7 +180,13 @@ impl Prop for C17 {
                 }
                 fields.push(f);
             }
-            replies.push(fields.join(","));
+            let mut r = fields.join(",");
+            if !last && rng.chance(1, 12) {
+                // longer than the line buffer: never acceptable
+                r = format!("{}{}", r, "1".repeat(1030));
+                interesting = true;
+            }
+            replies.push(r);
         }
         // model
         let expect_prompt = format!("{}? ", prompt.unwrap_or(""));
@@ -180,6 +198,9 @@ impl Prop for C17 {
             want.push_str(&format!("<INPUT {:?} caps={}>", expect_prompt, !comma));
             used += 1;
             let ok = (|| -> Option<Vec<V>> {
+                if r.len() > 1024 {
+                    return None;
+                }
                 let fields = split_fields(r, nv)?;
                 let mut vals = vec![];
                 for (f, v) in fields.iter().zip(vars.iter()) {
@@ -197,6 +218,13 @@ impl Prop for C17 {
                             Ok(c) => vals.push(c),
                             Err(_) => return None,
                         }
+                    }
+                }
+                if dependent.is_some() {
+                    // the element must exist: subscripts 0..10 of the undimensioned array
+                    match vals.first() {
+                        Some(V::I(k)) if (0..=10).contains(k) => {}
+                        _ => return None,
                     }
                 }
                 Some(vals)
@@ -262,7 +290,40 @@ impl Prop for C17 {
         }
         if done {
             let pr = s.rt.verif_probe();
-            for ((_, key, ty), w) in vars.iter().zip(finals.iter()) {
+            ctx.count("stack_depth_after_statement_checked");
+            if !pr.stack.is_empty() {
+                ctx.violation(
+                    "stack-residue",
+                    "input:stack-residue",
+                    &format!("{}\n the statement completed but {} value(s) are left on the stack: {:?}", text, pr.stack.len(), pr.stack),
+                    &text,
+                );
+                return;
+            }
+            for (vi, ((_, key, ty), w)) in vars.iter().zip(finals.iter()).enumerate() {
+                if dependent == Some(vi) {
+                    let k = match finals.first() {
+                        Some(V::I(k)) => *k,
+                        _ => 0,
+                    };
+                    let want_key = format!("{},{},{}", key, k, key);
+                    let got_v = pr.vars.iter().find(|(kk, _)| *kk == want_key).and_then(|(_, v)| from_val(v)).unwrap_or_else(|| V::zero(*ty));
+                    let others = pr.vars.iter().filter(|(kk, _)| kk.starts_with(&format!("{},", key)) && *kk != want_key).count();
+                    ctx.count("dependent_subscript_targets_checked");
+                    // (elements set by fields of earlier, rejected replies are not judged: the property fixes
+                    // when the statement continues, not that a rejected reply leaves no trace)
+                    let _ = others;
+                    if got_v.ty() != *ty || !mv::same(w, &got_v, mv::Tol::Exact) {
+                        ctx.violation(
+                            "stored-element",
+                            "input:stored-element",
+                            &format!("{}\n element {}({}) holds {} (other elements set: {}), the reply converts to {}", text, key, k, got_v.show(), others, w.show()),
+                            &text,
+                        );
+                        return;
+                    }
+                    continue;
+                }
                 // probe key of an array element: NAME(2) -> stored under "NAME,2"-like keys; match by prefix + value
                 let base = key.split('(').next().unwrap_or(key);
                 let found: Vec<V> = pr
